@@ -102,6 +102,9 @@ func c17Gadgets() []gadget {
 		{Name: "delegatecall H (its counter code on this storage)", Code: fixed(append(append(hx2("6000 6000 6000 6000"), push20(helper)...), hx2("61ffff f4 50")...)), Ext: true},
 		{Name: "staticcall H (writes: must fail inside)", Code: fixed(append(append(hx2("6000 6000 6000 6000"), push20(helper)...), hx2("61ffff fa 50")...)), Ext: true},
 		{Name: "call precompile#2 value 1", Code: fixed(callTo(append(make([]byte, 19), 2), 1, 0xffff)), Ext: true},
+		// T (deployed by D after the program): reads BALANCE(never-seen account) and STOPs - an inner frame that first touches
+		// a third party and returns SUCCESSFULLY (a following terminal REVERT of the caller fails the whole transaction)
+		{Name: "call T (inner frame touches a never-seen account, succeeds)", Code: fixed(callTo(sim.CreateAddress("D", 0), 0, 0xffff)), Ext: true},
 		{"return 0x2a", fixed(hx2("602a60005260206000f3")), true, false},
 		{"revert 1 byte", fixed(hx2("60016000fd")), true, false},
 		{"selfdestruct->U1", fixed(append(push20(u1), 0xff)), true, false},
@@ -357,7 +360,7 @@ func init() { engine.Register("C17", func() engine.Check { return &c17{} }) }
 func (c *c17) ID() string { return "C17" }
 func (c *c17) Meta() engine.Meta {
 	m := modelMeta("exhaustive program enumeration (gadget sequences) x history family on the real application, lock-step differential execution against a reference EVM world",
-		"C17: contracts assembled from 29 gadgets (four of them - EXTCODESIZE / EXTCODEHASH of a contract, a native account and a never-seen account -> storage, DELEGATECALL and STATICCALL of another contract, CALL with value to a precompile - only in programs up to length 2; the block and transaction context COINBASE NUMBER TIMESTAMP GASLIMIT CHAINID BASEFEE GASPRICE ORIGIN -> storage, CALL with value to the COINBASE, SSTORE const, SLOAD+1, LOG1, BALANCE(EOA)->storage, BALANCE(never-seen address)->storage, CALL with value to an EOA / to another contract / to a reverting contract (with and without value) / to a contract that reads the BALANCE of a never-seen account and reverts / to a contract that reverts without value and accepts value / to itself with little gas, CREATE and CREATE2 of a child, CALLVALUE / SELFBALANCE -> storage, a gas-burning loop, RETURN data, REVERT data, SELFDESTRUCT to another account / to the caller / into itself (a burn by EVM definition)): ALL gadget sequences up to length 3 (quick) / 4 (thorough). Each program runs in 4 history families mixing: deployment with and without value, calls with and without value by two callers, a plain transfer to the contract, a plain transfer to a child the contract created, native transfers to and from the touched accounts before and after, staking by the caller, native credits landing BETWEEN two contract transactions of the same block that touch the credited account, blocks with and without proposer, and a vm_call query after every block. "+
+		"C17: contracts assembled from 30 gadgets (five of them - a CALL of a helper whose inner frame first touches a never-seen account and returns successfully, EXTCODESIZE / EXTCODEHASH of a contract, a native account and a never-seen account -> storage, DELEGATECALL and STATICCALL of another contract, CALL with value to a precompile - only in programs up to length 2; the block and transaction context COINBASE NUMBER TIMESTAMP GASLIMIT CHAINID BASEFEE GASPRICE ORIGIN -> storage, CALL with value to the COINBASE, SSTORE const, SLOAD+1, LOG1, BALANCE(EOA)->storage, BALANCE(never-seen address)->storage, CALL with value to an EOA / to another contract / to a reverting contract (with and without value) / to a contract that reads the BALANCE of a never-seen account and reverts / to a contract that reverts without value and accepts value / to itself with little gas, CREATE and CREATE2 of a child, CALLVALUE / SELFBALANCE -> storage, a gas-burning loop, RETURN data, REVERT data, SELFDESTRUCT to another account / to the caller / into itself (a burn by EVM definition)): ALL gadget sequences up to length 3 (quick) / 4 (thorough). Each program runs in 4 history families mixing: deployment with and without value, calls with and without value by two callers, a plain transfer to the contract, a plain transfer to a child the contract created, native transfers to and from the touched accounts before and after, staking by the caller, native credits landing BETWEEN two contract transactions of the same block that touch the credited account, blocks with and without proposer, and a vm_call query after every block. "+
 			"Oracle: mc/evmref = vanilla go-ethereum StateDB + core.ApplyMessage with the application's chain configuration and block context; balances and nonces are overwritten from the native-ledger model before every message and copied back after it. Compared per transaction: success/failure, return data (created address for deployments), gas used, logs; at every committed height: native balance and nonce of EVERY account of the reference world, contract code and storage of every contract (also children). A failing execution follows RIGO's own rule (no effect, no fee). vm_call: same result as a read-only reference call, and the complete state is unchanged by it.",
 		"go-ethereum's interpreter, StateDB and ApplyMessage are a dependency and trusted; what is judged is the repository's state-db wrapper and controller")
 	m.LevelName = "length of the gadget sequence"
@@ -475,6 +478,10 @@ func c17History(prog []int, fam int) (sim.History, []string) {
 			blk(big(deploy("U1", "00", "0")), tr("W", "U1", "55"), big(deploy("U1", "00", "0")), tr("U0", P, "0"), tr("W", P, "9"), big(call("U1", P, "", "0"))),
 		}
 	}
+	// helper T, deployed in block 2 AFTER the program (so that the program stays contract #4): BALANCE(never-seen) POP STOP
+	g.Holders["D"] = "1000R"
+	tInit := hex.EncodeToString(initCodeFor(append(append(push20(sim.W("fresh-untouched").Addr), 0x31, 0x50), 0x00)))
+	blocks[1].Txs = append(blocks[1].Txs, deploy("D", tInit, "0"))
 	return sim.History{Gen: g, Blocks: blocks}, names
 }
 
